@@ -722,9 +722,42 @@ def run_victim_db(sh, s, d, case):
     return 'db:' + kind
 
 
+def blocked_world_shard(sh, params):
+    """"blocks no one" under threads: worlds of committers (a quarter of whose commits fail after the storage voted), readers and an
+    undoer, under the baton scheduler (shard 14) or freely running (shard 15); nobody may dead-lock or die, and afterwards a
+    transaction begins and commits normally (the world's own final read-back and history scan)"""
+    from zv import mvccload
+    free = params['shard'] == 15
+    s0 = params['seed'] * 7919 + params['shard']
+    i = 0
+    while sh.time_left():
+        i += 1
+        seed = (s0 + i * 15485863) & 0x7fffffff
+        kind = ('file', 'demo-file', 'file', 'mapping')[i % 4]
+        strategy = 'free' if free else ('sticky', 'pct')[i % 2]
+        case = {'world': True, 'seed': seed, 'kind': kind, 'strategy': strategy}
+        try:
+            out = mvccload.run_schedule(seed, kind, strategy, sh.scratch, stick=0.9, pct_depth=2)
+        except Exception:
+            import traceback
+            sh.violation('c05:world:harness-or-world-raises', {'exc': traceback.format_exc()[-500:]}, case)
+            continue
+        sh.count('concurrent_worlds')
+        sh.count('commits_failed_after_the_vote_with_concurrent_readers', out.get('vote_failures', 0))
+        for f in out['sched']:
+            sh.violation('c05:world:%s:%s' % (kind, f[0] if f[0] != 'thread-exception' else 'thread-raises-%s' % f[2]), {'detail': f[1:]}, case)
+        for v in out['c03']:
+            if v[0] in ('value-of-failed-transaction-stored',):
+                sh.violation('c05:world:%s:%s' % (kind, v[0]), {'witness': v[1:]}, case)
+        sh.case(digest('world', kind, out['digest']) if out.get('vote_failures') else None)
+    return sh.result()
+
+
 def run_shard(params):
     logging.disable(logging.CRITICAL)
     sh = Shard(params)
+    if params.get('shard') in (14, 15) and params.get('nshards', 16) >= 16:
+        return blocked_world_shard(sh, params)
     for j in range(3):
         cdb = {'seed': params['seed'] * 977 + params['shard'] * 13 + j, 'db': True}
         guarded(sh, 'c05', cdb, lambda: run_victim_db(sh, cdb['seed'], sh.fresh_dir('dbv'), cdb))
@@ -748,6 +781,11 @@ def run_shard(params):
 def replay(case, scratch):
     logging.disable(logging.CRITICAL)
     sh = Shard({'scratch': scratch, 'budget_s': 600})
+    if case.get('world'):
+        from zv import mvccload
+        out = mvccload.run_schedule(case['seed'], case['kind'], case['strategy'], scratch, stick=0.9, pct_depth=2)
+        return [{'mechanism': 'c05:world:%s:%s' % (case['kind'], f[0] if f[0] != 'thread-exception' else 'thread-raises-%s' % f[2]),
+                 'detail': {'detail': f[1:]}, 'case': case} for f in out['sched']]
     if case.get('db'):
         guarded(sh, 'c05', case, lambda: run_victim_db(sh, case['seed'], sh.fresh_dir('dbv'), case))
         return sh.violations
